@@ -238,10 +238,11 @@ def episode(run, history, extra_dtm, extra_frame, check, at=None, probe=None):
     return outcome, None
 
 
-def h_views(ctx, bname, lines, idx, off, w, eavesdrop, mutate=False, probe=None):
+def h_views(ctx, bname, lines, idx, off, w, eavesdrop, mutate=False, probe=None, frame=None):
     import symx
 
-    dtm, frame = lines[idx]
+    if frame is None:
+        frame = lines[idx][1]
     head, pay = frame[:50], frame[50:]
     win = symx.sym_hex(ctx, "w", w)
     extra = head + pay[:off] + win + pay[off + w:]
@@ -320,18 +321,40 @@ def queries(tier):
         for eav in eavs:
             for mut in (False, True):
                 for i, off, w in candidates(lines, thorough):
+                    if mut and off > 0 and not thorough:
+                        continue  # quick: a mutation inside the history only for the leading window of each frame kind
                     f = lines[i][1]
                     probe = pick_probe(bname, lines, eav, f, mut)
                     name = f"gwviews[{bname}{'+eav' if eav else ''}|{'mutated' if mut else 'extra'}|{f[4:6].strip()}|{f[41:45]}|{f[11:13]}>{f[21:23]}|{len(f[50:]) // 2}@{off}#{i}]"
                     qs.append(Query(name, lambda c, a=(bname, lines, i, off, w, eav, mut, probe): h_views(c, *a), {"h": "gwviews", "base": bname, "n": len(lines), "idx": i, "off": off, "w": w, "eav": eav, "mut": mut, "probe": probe},
                                     group="gwviews", max_secs=240 if thorough else 90, max_paths=4000, weight=0.5, mode=("bv" if f[41:45] == "3220" else "int")))
+    # packets of kinds the history prefix has not shown yet (taken from later in the same log), arriving after it
+    for bname, n in LATE_THOROUGH if thorough else LATE_QUICK:
+        whole = load_base(bname, 10**6)
+        lines = whole[:n]
+        if not lines:
+            continue
+        kind = lambda f: (f[4:6], f[41:45], f[11:13], f[21:23], len(f[50:]))  # noqa: E731
+        seen = {kind(f) for _, f in lines}
+        for i, off, w in candidates(whole, thorough):
+            f = whole[i][1]
+            if i < n or kind(f) in seen or (not thorough and off > 0):
+                continue
+            probe = pick_probe(bname, lines, False, f, False)
+            name = f"gwviews[{bname}|later|{f[4:6].strip()}|{f[41:45]}|{f[11:13]}>{f[21:23]}|{len(f[50:]) // 2}@{off}#{i}]"
+            qs.append(Query(name, lambda c, a=(bname, lines, None, off, w, False, False, probe, f): h_views(c, *a), {"h": "gwviews", "base": bname, "n": n, "idx": None, "frame": f, "off": off, "w": w, "eav": False, "mut": False, "probe": probe},
+                            group="gwviews", max_secs=240 if thorough else 90, max_paths=4000, weight=0.5, mode=("bv" if f[41:45] == "3220" else "int")))
     return qs
+
+
+LATE_QUICK = [("_heat_trv_00", 45)]
+LATE_THOROUGH = [("_heat_trv_00", 60), ("heat_zxdavb", 60), ("heat_ufc_00", 60), ("heat_ufc_01", 45), ("heat_otb_00", 45)]
 
 
 def replay(item):
     prm = item["params"]
     tier_lines = load_base(prm["base"], prm["n"])
-    dtm, frame = tier_lines[prm["idx"]]
+    frame = prm.get("frame") or tier_lines[prm["idx"]][1]
     head, pay = frame[:50], frame[50:]
     extra = head + pay[: prm["off"]] + item["cex"].get("w", "") + pay[prm["off"] + prm["w"]:]
     failed = []
@@ -352,4 +375,4 @@ def replay(item):
     if item["label"] in labs:
         lab = item["label"].split(":", 1)[1]
         sig = f"{lab}: {(info or '').split(':')[0]} [{frame[4:6].strip()}|{frame[41:45]}]"
-    return {"reproduced": item["label"] in labs, "observed": f"history {prm['base']}[:{prm['n']}] {'with line %d mutated to' % prm['idx'] if prm.get('mut') else 'then'} {extra!r}: {out}; {info}"[:600], "signature": sig}
+    return {"reproduced": item["label"] in labs, "observed": f"history {prm['base']}[:{prm['n']}] {('with line %d mutated to' % prm['idx']) if prm.get('mut') else 'then'} {extra!r}: {out}; {info}"[:600], "signature": sig}
